@@ -22,7 +22,7 @@ from .. import rig as R, ref, gen, dump, faults, env
 from ..orch import h
 
 ID = "C07"
-TECHNIQUE = 'runtime monitoring - fault enumeration: every mutation ordinal of every event of a history gets an injected engine error and a SIGKILL in a child process; the re-opened store must equal a prefix-closed state (event fully applied or not at all) and later events must still apply'
+TECHNIQUE = 'runtime monitoring - fault enumeration: every mutation ordinal of every event of a history gets an injected engine error and a SIGKILL in a child process; the re-opened store must equal a prefix-closed state (event fully applied or not at all) and later events must still apply; end-to-end shard: SIGKILL of the real servers whole process group from outside at a random instant of a burst, store files compared with the fault-free prefix states, restart on the same files and completion of the history'
 LEVEL = "fault_enumeration"
 EXHAUSTIVE = {"quick": True, "thorough": True}
 RULE = (
